@@ -278,3 +278,29 @@ func VH_C10_C16_ParamShapes() {
 		vh.Reach("reject-dup")
 	}
 }
+
+// VH_C16_NonASCIIRunes: the writer's validity predicates walk their argument rune by rune; a token, label or key made
+// of one fully symbolic leading byte followed by 2..3 SYMBOLIC bytes >= 0x80 (every 2-byte and 3-byte UTF-8 sequence,
+// and every ill-formed one) is used as a Token item, as the identifier label and as a parameter key: the writer
+// refuses all of them (RFC 8941 tokens and keys are ASCII) - in particular it must not judge a rune by its low 8
+// bits (U+0161 -> 'a', U+4E2A -> '*') - while the same leading byte alone is accepted exactly when the reference
+// says so.  Seed C16-3 was missed with tokens of at most 2 bytes (a leading letter plus a 2-byte rune needs 3).
+func VH_C16_NonASCIIRunes() {
+	vh.MustReach("refused", "written")
+	tail := 2 + vh.Choose(2)
+	s := vh.String("s", 1+tail)
+	for i := 1; i <= tail; i++ {
+		vh.Assume(s[i] >= 0x80)
+	}
+	if vh.Choose(4) == 3 {
+		s = s[:1] // control: ASCII-only value of the same shape goes through
+	}
+	switch vh.Choose(3) {
+	case 0:
+		c16Check(Token("a"), []string{"k"}, Parameters{Key("k"): Token(s)})
+	case 1:
+		c16Check(Token(s), nil, Parameters{})
+	default:
+		c16Check(Token("a"), []string{s}, Parameters{Key(s): nil})
+	}
+}
